@@ -134,8 +134,8 @@ CHECKS = {
     "C05": dict(
         text="TLC proves on the specification that the intended string/identifier encoders round-trip through the reference lexer of every "
              "dialect, stand-alone and embedded, for all strings over a 20-class adversarial alphabet up to length 2 (quick) / 3 (thorough). "
-             "Then every string over the alphabet (plus hot triples, seeded Unicode strings and 20 non-string values) is inlined at 27 value "
-             "positions (incl. the JSON operators, whose document operand has its own serialiser) x 6 dialects through the real builders, and one value-bearing term "
+             "Then every string over the alphabet (plus hot triples, seeded Unicode strings and 20 non-string values) is inlined at 35 value "
+             "positions (incl. the JSON operators, whose document operand has its own serialiser, and the file name of MySQL LOAD DATA, MySQL only) x 6 dialects through the real builders, and one value-bearing term "
              "is rendered under two dialects in a row (12 positions x 5 dialect pairs); TLC itself lexes the emitted characters (PT_Lex!Lex) and requires the benign "
              "rendering's token list with the marker replaced by exactly one literal decoding to the value. Exhaustive over alphabet x "
              "position x dialect within the length bound.",
